@@ -118,6 +118,9 @@ func TestC16Queue(t *testing.T) {
 		if st.CloseOverlap {
 			labels = append(labels, "close-overlaps-push")
 		}
+		if st.RanAfterCloseInvoked > 0 {
+			labels = append(labels, "ran-item-pushed-during-close")
+		}
 		if c.FailAt >= 0 {
 			labels = append(labels, "error-injected")
 		}
